@@ -601,7 +601,7 @@ def run(chk: Check):
                 "Plus: desugared trees per seed vs model, Problem eq/hash pairs differing in one respect, make_problem "
                 "cases, an lru history over 153 keys incl. near-duplicates, warm/cold evaluations.")
     chk.trusted += [
-        "hand models coq/model/{ExprAst,Problem,Desugar}.v tied to /repo by correspondence only",
+        "hand models coq/model/{ExprAst,Desugar}.v tied to /repo by correspondence and by regeneration + equivalence proof (TIE desugar, variables, index_participants); Problem.v by correspondence only",
         "Python set iteration = arbitrary permutation (oracle); functools.lru_cache = LRU list of 128 entries "
         "keyed by __hash__/__eq__ (model/Problem.v) -- tied by the identity pattern of a request history",
         "graph construction, IR generation and printing are NOT modelled for C15: their determinism is shown by "
